@@ -69,6 +69,36 @@ def run_extract(ctx):
     return changed
 
 
+GEN = os.path.join(LEAN, 'HidVerif', 'Gen')
+GEN_GOOD = os.path.join(LEAN, '.lake', 'gen_good')
+
+
+def _gen_files(d):
+    return {f: open(os.path.join(d, f), encoding='utf-8').read() for f in sorted(os.listdir(d)) if f.endswith('.lean')} if os.path.isdir(d) else {}
+
+
+def backup_gen_once():
+    """before the first extraction in this checkout: the Gen files in the tree are the ones the model was committed with"""
+    if not os.path.isdir(GEN_GOOD): save_gen()
+
+
+def save_gen():
+    import shutil
+    os.makedirs(GEN_GOOD, exist_ok=True)
+    for f in os.listdir(GEN):
+        if f.endswith('.lean'): shutil.copyfile(os.path.join(GEN, f), os.path.join(GEN_GOOD, f))
+
+
+def gen_differs():
+    return bool(_gen_files(GEN_GOOD)) and _gen_files(GEN_GOOD) != _gen_files(GEN)
+
+
+def restore_gen():
+    import shutil
+    for f in os.listdir(GEN_GOOD):
+        shutil.copyfile(os.path.join(GEN_GOOD, f), os.path.join(GEN, f))
+
+
 ERR_RE = re.compile(r'^error: (HidVerif/[\w/]+\.lean):(\d+):(\d+): (.*)$')
 
 
@@ -94,7 +124,20 @@ def build(ctx, modules):
         if bad and all('/Gen/' in b for b in bad):
             ctx.breaks.append(dict(kind='translator', name=', '.join(bad), detail=out[-3000:]))
             return False
-        raise Infra('model executable does not build:\n' + out[-4000:])
+        if not gen_differs():
+            raise Infra('model executable does not build:\n' + out[-4000:])
+        # the hand-written model no longer builds against the definitions regenerated from the source (a name it uses is gone, a
+        # shape changed): the tie is broken.  Fall back to the definitions the model was last built with so that the VM can still
+        # run the implementation's output in the search for a failing input
+        ctx.breaks.append(dict(kind='model', name='model does not build against the regenerated definitions: ' + ', '.join(bad), detail=out[-3000:]))
+        restore_gen()
+        ctx.stats['gen_fallback'] = 'executable built with the last good Gen/*.lean; regenerated definitions break ' + ', '.join(bad)
+        p = lake(['build', 'hidmodel'])
+        if p.returncode != 0:
+            raise Infra('model executable does not build even with the last good definitions:\n' + (p.stdout + p.stderr)[-4000:])
+        ctx.say('falling back to the last good regenerated definitions for the VM')
+        return False
+    save_gen()
     if not modules:
         return True
     p = lake(['build'] + modules)
@@ -195,6 +238,7 @@ def main():
         try: os.unlink(old)
         except OSError: pass
     try:
+        backup_gen_once()
         run_extract(ctx)
         ok = build(ctx, mod.LEAN_MODULES)
         axioms = audit(ctx, mod.LEAN_MODULES, mod.THEOREMS) if ok else {}
